@@ -38,7 +38,53 @@ func (h *History) prevStateAtNewTime() (sdk.Context, bool) {
 		h.W.App.StablestakeKeeper.BeginBlocker(br)
 		h.W.App.PerpetualKeeper.BeginBlocker(br)
 	}()
+	h.rederiveAccountedPools(br)
 	return br, true
+}
+
+// rederiveAccountedPools: "health at that moment" is a statement about what the pool is really worth. The modules
+// value a pool through its accounted balances, which by definition are reserve + perpetual liabilities − perpetual
+// custody per asset. On the branch the oracle judges eligibility on, those balances are re-derived from that
+// definition (from the amm reserves and the perpetual pool record), so that a position is not counted as "eligible"
+// merely because some hook left the accounted pool out of date. With a consistent state this writes back what is
+// already there.
+func (h *History) rederiveAccountedPools(ctx sdk.Context) {
+	defer func() { _ = recover() }()
+	app := h.W.App
+	if app.PerpetualKeeper.GetParams(ctx).EnableTakeProfitCustodyLiabilities {
+		return // another definition is in force (see C11)
+	}
+	for _, ap := range app.AccountedPoolKeeper.GetAllAccountedPool(ctx) {
+		amm, found := app.AmmKeeper.GetPool(ctx, ap.PoolId)
+		pp, pfound := app.PerpetualKeeper.GetPool(ctx, ap.PoolId)
+		if !found || !pfound {
+			continue
+		}
+		differs := false
+		for i, tok := range ap.TotalTokens {
+			L, C := sdkmath.ZeroInt(), sdkmath.ZeroInt()
+			for _, a := range append(append([]perptypes.PoolAsset{}, pp.PoolAssetsLong...), pp.PoolAssetsShort...) {
+				if a.AssetDenom == tok.Denom {
+					L, C = L.Add(a.Liabilities), C.Add(a.Custody)
+				}
+			}
+			want := reserveOf(&amm, tok.Denom).Add(L).Sub(C)
+			if !want.Equal(tok.Amount) {
+				differs = true
+				ap.TotalTokens[i].Amount = want
+			}
+			for j, na := range ap.NonAmmPoolTokens {
+				if na.Denom == tok.Denom && !na.Amount.Equal(L.Sub(C)) {
+					differs = true
+					ap.NonAmmPoolTokens[j].Amount = L.Sub(C)
+				}
+			}
+		}
+		if differs {
+			h.Labels["c10-accounted-pool-rederived-differs"]++
+			app.AccountedPoolKeeper.SetAccountedPool(ctx, ap)
+		}
+	}
 }
 
 func CheckC10(h *History, blk *BlockRecord) []Violation {
